@@ -86,10 +86,17 @@ func c08Site(stack string, msg string) *c08Panic {
 		if k := strings.LastIndex(fn, "("); k > 0 {
 			fn = fn[:k]
 		}
-		if strings.HasPrefix(fn, "main.") || strings.HasPrefix(fn, "github.com/rpcpool/yellowstone-faithful") {
-			if strings.Contains(fn, "c08") || strings.Contains(fn, "zzverif") {
-				continue
+		if strings.HasPrefix(fn, "github.com/rpcpool/yellowstone-faithful/") {
+			if p.site == "unknown" && !strings.Contains(fn, "zzverif") {
+				p.site = strings.TrimPrefix(fn, "github.com/rpcpool/yellowstone-faithful/")
 			}
+			continue
+		}
+		if strings.HasPrefix(fn, "main.") || strings.HasPrefix(fn, "github.com/rpcpool/yellowstone-faithful.") {
+			if strings.Contains(fn, "c08") || strings.Contains(fn, "zzverif") || strings.Contains(fn, "TestVerif") {
+				break
+			}
+			fn = strings.TrimPrefix(fn, "github.com/rpcpool/yellowstone-faithful.")
 			fn = strings.TrimPrefix(fn, "github.com/rpcpool/yellowstone-faithful/")
 			fn = strings.TrimPrefix(fn, "main.")
 			fn = strings.NewReplacer("(*MultiEpoch).", "", "(*GetBlockRequest).", "", "(*GetTransactionRequest).", "", "(...)", "").Replace(fn)
@@ -300,6 +307,7 @@ func c08BuildWorld(dir string, child bool) (*c08World, error) {
 		var le *loadedEpoch
 		if child {
 			// re-open what the parent built
+			os.MkdirAll(filepath.Join(dir, "scratch"+fmt.Sprint(i)), 0o755)
 			ge := genEpoch(rng, filepath.Join(dir, "scratch"+fmt.Sprint(i)), o) // regenerated for the ground truth only (deterministic)
 			le = &loadedEpoch{G: ge}
 			le.CfgPath = filepath.Join(edir, fmt.Sprintf("epoch-%d.yml", o.Epoch))
@@ -894,7 +902,7 @@ func (w *c08World) inChild(line string) string {
 		if strings.HasPrefix(rest, "panic ") {
 			// recovered in the child's calling goroutine: "panic <site> <kind>"
 			p := strings.Fields(rest)
-			c08LastPanic = &c08Panic{site: p[1], kind: p[2], msg: "(child) " + rest}
+			c08LastPanic = &c08Panic{site: p[1], kind: p[2], msg: strings.Join(p[3:], " ")}
 			return "panic"
 		}
 		return strings.TrimSpace(rest)
@@ -944,7 +952,7 @@ func c08ChildMain(t *testing.T) {
 	w.cur, _ = strconv.Atoi(os.Getenv("VERIF_C08_WORLD"))
 	out := w.execOp(os.Getenv("VERIF_C08_OP"))
 	if out == "panic" && c08LastPanic != nil {
-		fmt.Printf("C08CHILD-OUT panic %s %s\n", c08LastPanic.site, c08LastPanic.kind)
+		fmt.Printf("C08CHILD-OUT panic %s %s %s\n", c08LastPanic.site, c08LastPanic.kind, strings.ReplaceAll(c08LastPanic.msg, "\n", " "))
 		return
 	}
 	fmt.Println("C08CHILD-OUT " + out)
